@@ -323,9 +323,11 @@ class Cmp:
     def rhs_origins(self):
         return origins(self.body, self.rhs)
 
-    def edges_where(self, rel, a_pred, b_pred):
+    def edges_where(self, rel, a_pred, b_pred, exact=False):
         """Edges (bb, target) on which `A rel B` is known to hold, where A/B are identified by predicates
-        over origin lists. Returns [] if this comparison does not relate A and B."""
+        over origin lists. Returns [] if this comparison does not relate A and B. With exact=True the edge's
+        relation must be exactly `rel` (so that the complementary edge is exactly its negation): `>` does not
+        count as `>=`."""
         lo, ro = self.lhs_origins(), self.rhs_origins()
         if a_pred(lo) and b_pred(ro):
             op = self.op
@@ -334,9 +336,10 @@ class Cmp:
         else:
             return []
         out = []
-        if implies(op, rel):
+        ok = (lambda o: o == rel) if exact else (lambda o: implies(o, rel))
+        if ok(op):
             out += [(self.bb, t) for t in self.true_t]
-        if implies(NEG[op], rel):
+        if ok(NEG[op]):
             out += [(self.bb, t) for t in self.false_t]
         return out
 
